@@ -216,7 +216,7 @@ def validate(traces, timeout=1200):
         if isinstance(j, dict) and "verdict" in j:
             verdicts[j["verdict"]] = j["fails"]
 
-    r = tlc.run_tlc("TraceLayout", CFG, workers=1, timeout=timeout, on_json=on_json, files={"traces.json": json.dumps(slim)})
+    r = tlc.run_tlc("TraceLayout", CFG, workers=1, timeout=timeout, on_json=on_json, files={"traces.json": json.dumps(tlc.clamp_ints(slim))})
     if len(verdicts) != len(traces):
         raise tlc.MachineryError(f"TraceLayout: {len(verdicts)} verdicts for {len(traces)} traces\n" + "\n".join(r.tail[-25:]))
     return verdicts, r
